@@ -5,6 +5,10 @@ BASELINE = "cd /repo && /venv/bin/python -m pytest -ra -q -p no:cacheprovider --
 CLAIMED = {
  "C14": ("3/C14", "seeded history search over composition / resolution operations against an executable reference model and a fresh-world single-pipeline reference",
          "Seeded search over histories of Add (any bracketing, identities), Resolve (names, files, directory; any argument and enumeration order; repeated), UseInBackend and Check operations on 1-5 pipelines with priorities, overlapping vars and order-revealing items. Each Check compares the conversion through the composed object (a) with the complete output string predicted by a reference model from the specs alone and (b) with one pipeline built freshly from the concatenated YAML in a world without history."),
+ "C16": ("3/C16", "seeded history search in a world of recording fakes and trip-wires, checked against a capability model",
+         "Seeded search over pipeline documents with every external-source and template item type at top level and nested, opt-in keys smuggled in at every level incl. the document root, loads through from_dict / from_yaml / resolver with caller opt-ins, environment variables flipped between load and use, conversions, and scripted faults of the fakes. Every command, HTTP, socket, placeholder-file and vars-execution event (fakes, trip-wire files, audit hook) must be permitted by the caller's arguments for that pipeline or by a documented environment variable at that moment; a denied capability must surface as the Sigma security error."),
+ "C19": ("3/C19", "seeded search over validator order, rule order and Validate/Convert/ToDict interleavings; purity, invariance and reference-model oracles",
+         "Seeded search over collections with tricky detection names, duplicate ids / titles / file names and exclusion tables; each scheduled world imposes its own validator order (explicit container instead of the address-ordered set), rule order (file split and enumeration order) and interleaving of validation with conversion and serialisation. Oracles: dict form and queries equal those of a never-validated world with the same rule order; the issue multiset is identical in all worlds; reference model for dangling detections / selectors, identifier / title / filename groups and exclusions."),
  "C20": ("3/C20", "seeded search over process-start tuples (hash seed, random draws incl. forced colliding draws, heap layout) with real interpreter starts",
          "Seeded search over corpora rich in order-carrying and random-name constructs; each evaluation starts the same load-and-convert driver as 4-6 real CPython interpreters with distinct PYTHONHASHSEED, random seed or forced draw list and heap-shift seed (ASLR off when permitted) and compares queries, finalised output, load errors, pipeline build errors and error records byte for byte; output is scanned for internal _cond_/_filt_ identifiers, forced draws and object addresses."),
  "C15": ("3/C15", "seeded history search with fault injection against a fresh-world reference (fork of a pristine image)",
@@ -14,7 +18,7 @@ CLAIMED = {
  "C09": ("3/C09", "seeded delivery-order search (all permutations for small sets) over four load paths against a reference model",
          "Seeded search over rule sets with correlation chains; every scheduled (permutation, delivery path) runs in its own fresh world, with the directory enumeration order and the merge bracketing chosen by the simulator; all permutations are walked for sets of <=4 documents (<=5 thorough), sampled beyond. Oracle: reference model of load success, conversion order, per-rule queries and own-query emission computed from the set of documents."),
 }
-PENDING = ["C06", "C16", "C19"]
+PENDING = ["C06"]
 NA = {
  "C01": "pure function of (rule document, backend class attributes): no schedule, fault, clock or history for a seeded scheduler to choose; the class-template-swap state facet is exercised under C15",
  "C02": "the condition grammar is a pure function of the condition string; the parse-cache facet (shared tree must be copied) is decided under C15",
